@@ -1,4 +1,5 @@
 import OrbitModel.Proofs.ReplC11
+import OrbitModel.Proofs.GenEqWalk
 import OrbitModel.Proofs.GenEqSync
 import OrbitModel.Proofs.GenEqConsts
 import OrbitModel.Proofs.ReplExamples
@@ -74,5 +75,9 @@ theorem sync_order_tied_to_go_text : Gen.syncOrder = Order.sync := gen_sync_orde
 /-- the replicator of the Go text of this run fetches one entry per request (`batchSize`), which is
 why every buffered log of the model holds a single entry -/
 theorem batch_size_tied_to_go_text : Gen.batchSize = 1 := gen_batchSize
+
+/-- the replicator of the Go text of this run looks at EVERY hash a fetched entry names (no early exit
+from the loop that queues them), as the model's `fetchOk` does -/
+theorem parent_walk_tied_to_go_text : Gen.parentWalkExits = 0 := gen_parentWalk_complete
 
 end Orbit.C10
